@@ -24,6 +24,7 @@ func id(p unsafe.Pointer) string { return fmt.Sprintf("%p", p) }
 type Mutex struct {
 	real sync.Mutex
 	held bool
+	hb   vrt.VC // happens-before: what the last unlockers had done
 }
 
 func (m *Mutex) Lock() {
@@ -37,6 +38,7 @@ func (m *Mutex) Lock() {
 	}
 	vrt.Yield(&vrt.Op{Kind: "lock", Shared: true, Enabled: func() bool { return !m.held }})
 	m.held = true
+	vrt.HBAcquire(&m.hb)
 }
 
 func (m *Mutex) TryLock() bool {
@@ -48,6 +50,7 @@ func (m *Mutex) TryLock() bool {
 		return false
 	}
 	m.held = true
+	vrt.HBAcquire(&m.hb)
 	return true
 }
 
@@ -62,6 +65,7 @@ func (m *Mutex) Unlock() {
 	if !m.held {
 		panic("sync: unlock of unlocked mutex")
 	}
+	vrt.HBRelease(&m.hb)
 	m.held = false
 	vrt.Yield(&vrt.Op{Kind: "unlock", Shared: true})
 }
@@ -70,6 +74,8 @@ type RWMutex struct {
 	real    sync.RWMutex
 	writer  bool
 	readers int
+	hbW     vrt.VC // released by writers
+	hbR     vrt.VC // released by readers
 }
 
 func (m *RWMutex) Lock() {
@@ -83,6 +89,8 @@ func (m *RWMutex) Lock() {
 	}
 	vrt.Yield(&vrt.Op{Kind: "lock", Shared: true, Enabled: func() bool { return !m.writer && m.readers == 0 }})
 	m.writer = true
+	vrt.HBAcquire(&m.hbW)
+	vrt.HBAcquire(&m.hbR)
 }
 
 func (m *RWMutex) Unlock() {
@@ -96,6 +104,7 @@ func (m *RWMutex) Unlock() {
 	if !m.writer {
 		panic("sync: Unlock of unlocked RWMutex")
 	}
+	vrt.HBRelease(&m.hbW)
 	m.writer = false
 	vrt.Yield(&vrt.Op{Kind: "unlock", Shared: true})
 }
@@ -111,6 +120,7 @@ func (m *RWMutex) RLock() {
 	}
 	vrt.Yield(&vrt.Op{Kind: "rlock", Shared: true, Enabled: func() bool { return !m.writer }})
 	m.readers++
+	vrt.HBAcquire(&m.hbW)
 }
 
 func (m *RWMutex) RUnlock() {
@@ -124,6 +134,7 @@ func (m *RWMutex) RUnlock() {
 	if m.readers <= 0 {
 		panic("sync: RUnlock of unlocked RWMutex")
 	}
+	vrt.HBRelease(&m.hbR)
 	m.readers--
 	vrt.Yield(&vrt.Op{Kind: "runlock", Shared: true})
 }
@@ -138,6 +149,7 @@ func (r *rlocker) Unlock() { (*RWMutex)(r).RUnlock() }
 type WaitGroup struct {
 	real sync.WaitGroup
 	n    int
+	hb   vrt.VC
 }
 
 func (w *WaitGroup) Add(d int) {
@@ -147,6 +159,9 @@ func (w *WaitGroup) Add(d int) {
 	}
 	if vrt.Aborting() {
 		return
+	}
+	if d < 0 {
+		vrt.HBRelease(&w.hb)
 	}
 	w.n += d
 	if w.n < 0 {
@@ -167,12 +182,14 @@ func (w *WaitGroup) Wait() {
 		return
 	}
 	vrt.Yield(&vrt.Op{Kind: "wg-wait", Shared: true, Enabled: func() bool { return w.n == 0 }})
+	vrt.HBAcquire(&w.hb)
 }
 
 type Once struct {
 	real sync.Once
 	mu   Mutex
 	done bool
+	hb   vrt.VC
 }
 
 func (o *Once) Do(f func()) {
@@ -181,24 +198,29 @@ func (o *Once) Do(f func()) {
 		return
 	}
 	if o.done {
+		vrt.HBAcquire(&o.hb)
 		return
 	}
 	o.mu.Lock()
 	defer o.mu.Unlock()
 	if !o.done {
-		defer func() { o.done = true }()
+		defer func() { o.done = true; vrt.HBRelease(&o.hb) }()
 		f()
+	} else {
+		vrt.HBAcquire(&o.hb)
 	}
 }
 
 // Map wraps sync.Map; every operation is a scheduling point.
 type Map struct {
-	m sync.Map
+	m  sync.Map
+	hb vrt.VC
 }
 
 func (m *Map) pt() {
 	if vrt.Controlled() && !vrt.Aborting() {
 		vrt.Yield(&vrt.Op{Kind: "map", Shared: true})
+		vrt.HBSync(&m.hb)
 	}
 }
 func (m *Map) Load(k any) (any, bool)               { m.pt(); return m.m.Load(k) }
